@@ -93,14 +93,12 @@ def inRows (number : Bool) (cols : List (List Value)) : Nat → Nat → List Val
     let rest ← inRows number cols n (i + 1) ls
     pure (.bool c :: rest)
 
-/-- membership loop of `execInBatch` over an unpacked list value (errors are returned) -/
-def inValues (number : Bool) (left : Value) : List Value → Except Err Bool
-  | [] => .ok false
-  | v :: vs =>
-    match compareBy number left v .eq with
-    | .error e => .error e
-    | .ok true => .ok true
-    | .ok false => inValues number left vs
+/-- membership loop of `execInBatch` over an unpacked list value: an element that cannot be compared
+    with the left operand ends the loop without a match and WITHOUT an error, exactly as the row loop
+    of `execStringIn` / `execNumberIn` (`inAnyList`) does.  The lists functions return are homogeneous
+    (`[]string`, `[]int64`, `[]float64`), so either every element is comparable with `left` or none is. -/
+def inValues (number : Bool) (left : Value) (vals : List Value) : Except Err Bool :=
+  .ok (inAnyList number left vals)
 
 /-- the loop of the call/alias branch of `execInBatch` (in place in `rleft`): `frets[i]` is indexed and
     unpacked before `rleft[i]` is read -/
